@@ -56,6 +56,24 @@ def ninja_quote_patterns(engine):
 REG.custom('C03', 'ninja_quote.patterns', ninja_quote_patterns, note='SMT comparison of the live quoting patterns with the set of characters ninja treats specially')
 
 
+# ---- C13: which words are versioned shared libraries (searched anywhere in the word)
+def dedup_pattern(engine):
+    mod = src.import_module('mesonbuild/arglist.py')
+    notes = set()
+    real = need(rx.search_language(mod.CompilerArgs.dedup1_regex, notes), 'CompilerArgs.dedup1_regex')
+    ANY = z3.Star(z3.AllChar(z3.ReSort(z3.StringSort())))
+    NONL = z3.Star(z3.Intersect(z3.AllChar(z3.ReSort(z3.StringSort())), z3.Complement(z3.Re('\n'))))
+    ver = z3.Concat(z3.Re('.'), z3.Plus(DIG))
+    name = z3.Concat(z3.Re('lib'), NONL, z3.Re('.so'), z3.Option(ver), z3.Option(ver), z3.Option(ver), z3.Option(z3.Re('\n')))
+    spec = z3.Union(name, z3.Concat(ANY, R('/', '\\'), name))
+    for n_ in notes:
+        engine.assumptions.add(n_)
+    return [same_language('CompilerArgs.dedup1_regex', real, spec, 'a word is a (versioned) shared library iff a file name starting with lib - at the start of the word or after a / or \\ - ends with .so and at most three numeric version components')]
+
+
+REG.custom('C13', 'CompilerArgs.dedup1_pattern', dedup_pattern, note='SMT comparison of the set of words the live pattern finds a match in with the shared-library names the statement means')
+
+
 # ---- C19: the tokeniser of Version.__init__
 def version_tokens(engine):
     mod = src.import_module('mesonbuild/utils/universal.py')
